@@ -180,9 +180,9 @@ func VerifC13ParallelFaults() {
 	mode := vchoose("mode", 3)
 	names := []string{"a", "b", "c"}[:2+vchoose("width", 1+vtier())]
 	if len(names) == 2 {
-		vcfg("preempt", 2)
+		vcfg("preempt", 2+vtier())
 	} else {
-		vcfg("preempt", 1) // three parallel nodes (thorough tier): one pre-emption
+		vcfg("preempt", 2) // three parallel nodes (thorough tier only)
 	}
 	kinds := map[string]int{}
 	errsOf := map[string]error{}
